@@ -401,6 +401,8 @@ impl PackageBuilder {
                 format!("{}/", parent.to_string_lossy()),
             )
         };
+        // a file directly under the root: the directory is "/", not "//"
+        let dir = if dir == "//" { "/".to_string() } else { dir };
 
         // file_name() is None for destinations ending in ".." (e.g. "/usr/..")
         let base_name = pb
